@@ -259,6 +259,25 @@ func (cs *caseState) analyze(known func(trigger, mode string) bool, r childRes, 
 		}
 		rest := append([]int(nil), sel[:culprit]...)
 		rest = append(rest, sel[culprit+1:]...)
+		if m := rePos.FindStringSubmatch(r.Err); m != nil {
+			if ln, _ := strconv.Atoi(m[1]); cs.prog.helper[ln] {
+				// the rejected line is in the helper of a shared site: the verdict goes to the
+				// site's first form, its other calls cannot be run either
+				site := forms[sel[culprit]].site()
+				var keep []int
+				for _, o := range rest {
+					if forms[o].shared() && forms[o].site() == site {
+						if cs.dropped == nil {
+							cs.dropped = map[string]int{}
+						}
+						cs.dropped["site "+site]++
+						continue
+					}
+					keep = append(keep, o)
+				}
+				rest = keep
+			}
+		}
 		cs.recordAbort(known, sel[culprit], abortMode, r.Err, &rest)
 		cs.pending = rest
 		return len(rest) > 0
@@ -513,8 +532,20 @@ func (ck *checker) process(bs []*beh, par int, nativeAll bool) {
 			}
 			ck.byClass[f.trigger+" / "+f.mode]++
 			ck.mu.Unlock()
-			one := render(&b.H, b.Forms, []int{f.fi})
-			rep := map[string]any{"h": b.H, "form": b.Forms[f.fi], "hierarchy": hk, "facts": b.Facts, "expected": f.want, "observed": f.got, "detail": f.detail, "program": one.Src}
+			// a call of a shared site is replayed after the calls the site has seen before it
+			idx := []int{}
+			var pre []form
+			if b.Forms[f.fi].shared() {
+				for o := 0; o < f.fi; o++ {
+					if b.Forms[o].shared() && b.Forms[o].site() == b.Forms[f.fi].site() {
+						idx = append(idx, o)
+						pre = append(pre, b.Forms[o])
+					}
+				}
+			}
+			idx = append(idx, f.fi)
+			one := render(&b.H, b.Forms, idx)
+			rep := map[string]any{"h": b.H, "pre": pre, "form": b.Forms[f.fi], "hierarchy": hk, "facts": b.Facts, "expected": f.want, "observed": f.got, "detail": f.detail, "program": one.Src}
 			if !c.Fail(f.trigger, f.mode, rep) {
 				ck.mu.Lock()
 				ck.unlisted[f.trigger+" / "+f.mode]++
@@ -586,7 +617,7 @@ func cfg(spec string, maxN int, shape string, percent int, seed int64, lo, hi in
 		spec, maxN, shape, percent, seed, lo, hi, exclude, invs))
 }
 
-const allInvs = "InvSubset InvLookupFunction InvMethodSetRule InvAssertIffImpl InvIfaceCopy InvSwitchFirst Emit"
+const allInvs = "InvSubset InvLookupFunction InvMethodSetRule InvAssertIffImpl InvIfaceCopy InvSwitchFirst InvSiteHistoryFree Emit"
 
 type tlcJob struct {
 	name     string
@@ -619,13 +650,14 @@ func run(c *fw.Ctx) error {
 	}
 	if c.Replay != "" {
 		var rp struct {
-			H    hier `json:"h"`
-			Form form `json:"form"`
+			H    hier   `json:"h"`
+			Pre  []form `json:"pre"`
+			Form form   `json:"form"`
 		}
 		if err := c.LoadReplay(&rp); err != nil {
 			return err
 		}
-		ck.process([]*beh{{H: rp.H, Forms: []form{rp.Form}}}, 1, true)
+		ck.process([]*beh{{H: rp.H, Forms: append(rp.Pre, rp.Form)}}, 1, true)
 		return nil
 	}
 
@@ -649,11 +681,11 @@ func run(c *fw.Ctx) error {
 		slices := 12
 		for s := 0; s < slices; s++ {
 			lo, hi := s*(hi3+1)/slices, (s+1)*(hi3+1)/slices-1
-			jobs = append(jobs, tlcJob{name: fmt.Sprintf("chain.%d", s), cfg: cfg("Spec", 3, "chain", 100, c.Seed, lo, hi, allInvs), workers: 4, native: 25})
+			jobs = append(jobs, tlcJob{name: fmt.Sprintf("chain.%d", s), cfg: cfg("Spec", 3, "chain", 100, c.Seed, lo, hi, allInvs), workers: 4, native: 40})
 		}
 		for s := 0; s < slices; s++ {
 			lo, hi := s*(hi3+1)/slices, (s+1)*(hi3+1)/slices-1
-			jobs = append(jobs, tlcJob{name: fmt.Sprintf("fork.%d", s), cfg: cfg("Spec", 3, "fork", 20, c.Seed, lo, hi, allInvs), workers: 4, native: 25})
+			jobs = append(jobs, tlcJob{name: fmt.Sprintf("fork.%d", s), cfg: cfg("Spec", 3, "fork", 20, c.Seed, lo, hi, allInvs), workers: 4, native: 40})
 		}
 		for s := 0; s < 8; s++ {
 			jobs = append(jobs, tlcJob{name: fmt.Sprintf("sim4.%d", s), cfg: cfg("SpecSim", 4, "any", 100, c.Seed, 0, 0, allInvs), sim: true, num: 1, seed: c.Seed*100 + int64(s), native: 8})
@@ -830,14 +862,15 @@ func (ck *checker) witnesses() error {
 		}
 		var w struct {
 			Case struct {
-				H    hier `json:"h"`
-				Form form `json:"form"`
+				H    hier   `json:"h"`
+				Pre  []form `json:"pre"`
+				Form form   `json:"form"`
 			} `json:"case"`
 		}
 		if err := json.Unmarshal(b, &w); err != nil {
 			return fmt.Errorf("%s: %v", p, err)
 		}
-		bs = append(bs, &beh{H: w.Case.H, Forms: []form{w.Case.Form}})
+		bs = append(bs, &beh{H: w.Case.H, Forms: append(w.Case.Pre, w.Case.Form)})
 	}
 	if len(bs) > 0 {
 		ck.process(bs, 8, false)
